@@ -96,11 +96,11 @@ func c10Op(name, tok string) (run func(s stackage.Stack) string, model func(m *l
 		// (Transfer's own verdict compares lengths it reads outside the lock and is not among the calls the
 		// statement lists: only what happens to the shared content is judged)
 		return func(s stackage.Stack) string { stackage.Basic().Push(a).Transfer(s); return "" }, func(m *listModel) string {
-				if !(m.capk > 0 && len(m.items)+1 > m.capk) {
-					m.push(a)
-				}
-				return ""
+			if !(m.capk > 0 && len(m.items)+1 > m.capk) {
+				m.push(a)
 			}
+			return ""
+		}
 	case "TransferToPeer", "TransferFromPeer", "TransferSelf": // peer scenarios only (no reference outcome)
 		return func(s stackage.Stack) string {
 			peer, _ := s.Auxiliary()["peer"].(stackage.Stack)
